@@ -630,7 +630,7 @@ func (g *G) fillValue(v reflect.Value, optional bool) {
 	defer func() { g.depth-- }()
 	switch t {
 	case tTime:
-		v.Set(reflect.ValueOf(time.Unix(DateSec(g.T, g.lbl("date"), g.O.TextSafe), 0)))
+		v.Set(reflect.ValueOf(InZone(time.Unix(DateSec(g.T, g.lbl("date"), g.O.TextSafe), 0), rapid.IntRange(0, 79).Draw(g.T, g.lbl("zone")))))
 		return
 	case tDuration:
 		v.SetInt(IntervalSec(g.T, g.lbl("ival")) * int64(time.Second))
